@@ -51,8 +51,7 @@ func Script(t *tape.Tape, max int, conflicts bool) []Edit {
 		e := Edit{Kind: Kind(t.Draw(int(NumKinds))), N: t.Draw(8), M: t.Draw(8)}
 		var p gen.Pkg
 		if conflicts && t.Bool(2, 3) {
-			c := []int{7, 8, 9, 10, 11, 14, 15}
-			p = gen.Pool[c[t.Draw(len(c))]]
+			p = gen.Pool[gen.ConflictIdx[t.Draw(len(gen.ConflictIdx))]]
 		} else {
 			p = gen.Pool[t.Draw(len(gen.Pool)-1)] // never the vendor path: dst strips it on decorate only
 		}
